@@ -83,14 +83,18 @@ var keys = []keySpec{
 	{"GET", "/in/*{c}/m/{p}", "", "/in/x/y/m/z"},
 	// the only route of a fixed verb: transactions may remove it with Truncate(PUT), which works on the per-method roots
 	{"PUT", "/t", "", "/t"},
+	// the only route of a verb without a root of its own in an empty router: the root comes with the first route and goes with
+	// the last; a transaction that registers it twice (the second call refused as a duplicate) still registers it
+	{"PATCH", "/t", "", "/t"},
 	{"POST", "/a", "", "/a"},
 	{"GET", "/a/{p}/c", "", "/a/zz/c"},
 	{"GET", "{s}.example.org/a/b", "s1.example.org", "/a/b"},
 }
 
-const nTxn = 12
+const nTxn = 13
 const infixKey = 10
 const putKey = 11
+const patchKey = 12
 
 type KOp struct {
 	Kind string `json:"kind"` // handle, update, delete
@@ -733,10 +737,14 @@ func genPlan(t *rapid.T) *Plan {
 				n := gen.IntR(t, 1, 3, "nops")
 				for j := 0; j < n; j++ {
 					ko := KOp{Kind: gen.Pick(t, []string{"handle", "handle", "update", "delete"}, "kind"), Key: gen.IntR(t, 0, nTxn-1, "tkey")}
-					if ko.Key == putKey && ko.Kind == "delete" && gen.Chance(t, 2, 3, "truncate") {
+					if (ko.Key == putKey || ko.Key == patchKey) && ko.Kind == "delete" && gen.Chance(t, 2, 3, "truncate") {
 						ko.Kind = "truncate"
 					}
 					st.Ops = append(st.Ops, ko)
+				}
+				if gen.Chance(t, 1, 8, "twice") {
+					// register-if-absent written the easy way: the same registration twice, the second refused
+					st.Ops = []KOp{{Kind: "handle", Key: patchKey}, {Kind: "handle", Key: patchKey}}
 				}
 				st.Abort = gen.Chance(t, 1, 6, "abort")
 				st.Peek = gen.Pick(t, []string{"", "", "", "iter", "snapshot"}, "peek")
